@@ -113,8 +113,10 @@ def cells(tier, seed):
     geoms = GEOMS[:2] if quick else GEOMS
     out = []
     for spec, fam, ard_ok, batch_ok, paths in _specs():
+        # formulas that depend on the input dimension (piecewise-polynomial exponent floor(d/2)+q+1, ...) differ between even and odd d
+        dss = [1, 2, 3] if fam == "simple" else ds
         for d, shape, ard, batch, val, mode, path, geom in itertools.product(
-                ds, range(len(SHAPES)), [False, True] if ard_ok else [False], [0, 1] if batch_ok else [0], vals, ["full", "diag"], paths, geoms):
+                dss, range(len(SHAPES)), [False, True] if ard_ok else [False], [0, 1] if batch_ok else [0], vals, ["full", "diag"], paths, geoms):
             if mode == "diag" and SHAPES[shape][2] == "distinct":
                 continue  # documented: diag=True requires x1 == x2
             if spec[0] == "ng" and spec[2] > d:
